@@ -124,6 +124,8 @@ func RunSched(p *SchedProg) (violation string, steps int) {
 		return schedLockOrder(p)
 	case "sched-stream":
 		return schedStream(p)
+	case "sched-fallback":
+		return schedFallback(p)
 	}
 	return "", 0
 }
@@ -326,6 +328,86 @@ func schedLockOrder(p *SchedProg) (string, int) {
 	p.Trace = s.Trace
 	s.Drain()
 	return judgeSched(res, v), res.Steps
+}
+
+// schedFallback: a keyed call takes the fallback path while the channel it is about to choose as stand-in
+// fails. Afterwards (sequentially) the key must be served by a READY channel (C08).
+func schedFallback(p *SchedProg) (string, int) {
+	e, err := newPoolEnv(fmt.Sprintf(`{"channelPool":{"minSize":3,"maxSize":3,"fallbackToReady":true},%s}`, schedMethods), 3, true)
+	if err != nil {
+		return "C17|" + err.Error(), 0
+	}
+	e.bringUpAll()
+	pk := e.readyPickers()
+	cur := pk[len(pk)-1]
+	bctx := ictx(context.Background(), &cmsg{}, &cmsg{Key: "k1"})
+	r, err := cur.Pick(balancer.PickInfo{Ctx: bctx, FullMethodName: "/bind"})
+	if err != nil {
+		return "C01|setup bind failed: " + err.Error(), 0
+	}
+	home := r.SubConn.(*csc)
+	r.Done(balancer.DoneInfo{})
+	e.rep(home, connectivity.TransientFailure) // home down: keyed calls need a stand-in
+	pk = e.readyPickers()
+	cur = pk[len(pk)-1]
+	// make one of the two remaining channels busier so that the stand-in choice is determined
+	var others []*csc
+	for _, sc := range e.cc.all {
+		if sc != home {
+			others = append(others, sc)
+		}
+	}
+	var held []balancer.PickResult
+	for i := 0; i < 8 && len(held) < 2; i++ {
+		x, err := cur.Pick(balancer.PickInfo{Ctx: context.Background(), FullMethodName: "/plain"})
+		if err != nil {
+			break
+		}
+		if x.SubConn.(*csc) == others[1] {
+			held = append(held, x)
+		} else {
+			x.Done(balancer.DoneInfo{})
+		}
+	}
+	victim := others[0] // least busy: the stand-in a keyed call will choose
+	s := NewSched()
+	n := 1 + p.Extra%2
+	for i := 0; i < n; i++ {
+		s.Go(fmt.Sprintf("keyed-pick%d", i), func() {
+			ctx := ictx(context.Background(), &cmsg{Key: "k1"}, &cmsg{})
+			if x, err := cur.Pick(balancer.PickInfo{Ctx: ctx, FullMethodName: "/bound"}); err == nil {
+				x.Done(balancer.DoneInfo{})
+			}
+		})
+	}
+	s.Go("callbacks", func() {
+		e.rep(victim, connectivity.TransientFailure)
+	})
+	res, v := p.run(s, 400, func() string { return violationOf(e.cc) })
+	p.Trace = s.Trace
+	s.Drain()
+	if j := judgeSched(res, v); j != "" {
+		return j, res.Steps
+	}
+	for _, h := range held {
+		h.Done(balancer.DoneInfo{})
+	}
+	// sequential epilogue: home and victim are down, others[1] is READY: the key must be served there
+	pk = e.readyPickers()
+	cur = pk[len(pk)-1]
+	for i := 0; i < 2; i++ {
+		ctx := ictx(context.Background(), &cmsg{Key: "k1"}, &cmsg{})
+		x, err := cur.Pick(balancer.PickInfo{Ctx: ctx, FullMethodName: "/bound"})
+		if err != nil {
+			return fmt.Sprintf("C08|after the stand-in failed, a call for the bound key is not placed although channel %d is READY: %v", others[1].id, err), res.Steps
+		}
+		got := x.SubConn.(*csc)
+		x.Done(balancer.DoneInfo{})
+		if got != others[1] {
+			return fmt.Sprintf("C08|after the stand-in (conn %d) failed, a call for the bound key is placed on conn %d, which is not READY, although conn %d is READY", victim.id, got.id, others[1].id), res.Steps
+		}
+	}
+	return "", res.Steps
 }
 
 func judgeSched(res SchedResult, v string) string {
